@@ -108,7 +108,7 @@ def rand_spec(rng):
     elif r < 0.84:    # business days, whole days apart
         k = rng.choice([1, 1, 1, 2, 3, 5, 7])
         t0 = rand_start(rng, rng.random() < 0.8)
-        span = rng.choice([1, 2, 3, 6, 7, 13, rng.randrange(1, 60), rng.randrange(60, 1100)])
+        span = rng.choice([0, 0, 1, 2, 3, 6, 7, 13, rng.randrange(1, 60), rng.randrange(60, 1100)])     # 0: t0 == t1, also on a weekend day
         t1 = t0 + sgn * span * DAY
         kind, bump = 'b', '%db' % (sgn * k)
     else:             # compound period strings
